@@ -56,6 +56,15 @@ type stCmd struct {
 	// osearch: a probe with search options, answered by the store AND by the reference
 	// in-memory hybrid index
 	O *stOpt `json:"o,omitempty"`
+	// add/addid: Far > 0 scales the vector by 10^Far — distances to the probe vector then fall into
+	// well separated groups (what autocut reacts to)
+	Far int `json:"far,omitempty"`
+	// addmany: Cnt documents through Add, one after the other (big cases)
+	Cnt int `json:"cnt,omitempty"`
+	// readd: AddWithID of the id acknowledged by add command Ref (an id handed out by Add, or an
+	// explicit one), with the same modalities and new content — after a Remove of it, or while live
+	// imagenow (crash stream): the process dies here, between two calls; bg with W = "fi": the flush
+	// worker runs the first half of flushMemtable (id, os.Create ×n) and stays parked there
 	// bg: which worker takes one step: "f" | "c"
 	W string `json:"w,omitempty"`
 }
@@ -77,6 +86,7 @@ type stOpt struct {
 
 type stCase struct {
 	Vec      string  `json:"vec"` // none | flat | hnsw | ivf
+	Dir      int     `json:"dir,omitempty"` // index into storeDirNames: how the base directory is called
 	Cosine   bool    `json:"cosine,omitempty"`
 	Text     bool    `json:"text"`
 	Meta     bool    `json:"meta"`
@@ -164,6 +174,7 @@ type hookSched struct {
 	loads   int
 	freeLog []string
 	snap    func(point string)
+	fwInner string // when set: the released flush worker parks at this point inside flushMemtable
 	store   *comet.PersistentHybridIndex
 	problem string
 }
@@ -230,6 +241,18 @@ func (h *hookSched) endTurn(kind string) {
 }
 
 func (h *hookSched) handle(name string) {
+	if strings.HasPrefix(name, "flush:") {
+		h.mu.Lock()
+		hit := h.fw.where == "running" && h.fwInner != "" && name == h.fwInner && !h.free
+		if hit {
+			h.fwInner = ""
+		}
+		h.mu.Unlock()
+		if hit {
+			h.park(&h.fw, "inner")
+			return
+		}
+	}
 	switch name {
 	case "flushWorker:wake":
 		h.park(&h.fw, "wake")
@@ -332,6 +355,8 @@ type stExec struct {
 	store   *comet.PersistentHybridIndex
 	adds    []uint32 // ids acknowledged, by ordinal of the add command
 	addOK   []bool
+	addCmd  []stCmd // the modalities of each add command (for readd)
+	root    string  // the case's scratch directory
 	lastN   map[string]int // size of the last answer per modality
 	ref     comet.HybridSearchIndex // reference: one in-memory hybrid index fed the same acknowledged adds / removes
 	lastTok string
@@ -575,6 +600,8 @@ func (e *stExec) stepWorker(flush bool) bool {
 		step = "fwrite"
 	case flush && where == "flushed":
 		step = "fremove"
+	case flush && where == "inner":
+		step = "ffill" // the second half of flushMemtable (only reached in muted clean-up)
 	case !flush && where == "wake":
 		step = "clist"
 	case !flush && where == "load":
@@ -609,6 +636,42 @@ func (e *stExec) stepWorker(flush bool) bool {
 			e.awaitWake(w, "cwake")
 		}
 	}
+	return true
+}
+
+// innerPoint: the yield point of flushMemtable right after its last os.Create, before WriteTo.
+func (e *stExec) innerPoint() string {
+	switch {
+	case e.c.Meta:
+		return "flush:created:metadata"
+	case e.c.Text:
+		return "flush:created:text"
+	case e.c.Vec != "none" && e.c.Vec != "":
+		return "flush:created:vector"
+	}
+	return "flush:created:hybrid"
+}
+
+// stepWorkerInner releases the flush worker, parked before flushMemtable, only as far as the
+// point after the os.Create calls: segment id taken, files created and empty, nothing written.
+func (e *stExec) stepWorkerInner() bool {
+	w := &e.h.fw
+	e.h.mu.Lock()
+	if w.where != "next" {
+		e.h.mu.Unlock()
+		return false
+	}
+	w.where = "running"
+	e.h.fwInner = e.innerPoint()
+	ch := w.resume
+	e.h.mu.Unlock()
+	close(ch)
+	ev, ok := waitEv(w)
+	if !ok || ev != "inner" {
+		e.emit("op panic flush worker did not reach %s (got %q)", e.innerPoint(), ev)
+		return false
+	}
+	e.emit("op bg fcreate => inner seg=%d", e.store.VerifState().SegmentCounter)
 	return true
 }
 
@@ -815,7 +878,16 @@ func (e *stExec) search(q string, kmode int) {
 			k = 1
 		}
 	}
-	s := e.store.NewSearch().WithK(k)
+	s := e.store.NewSearch()
+	switch kmode {
+	case 3: // the builder's default k
+		k = 10
+	case 4:
+		k = 0
+		s = s.WithK(0)
+	default:
+		s = s.WithK(k)
+	}
 	grp := &comet.FilterGroup{Filters: []comet.Filter{comet.Eq("c", "y")}, Logic: comet.AND}
 	switch q {
 	case "mdg":
@@ -859,14 +931,25 @@ func (e *stExec) search(q string, kmode int) {
 	})
 }
 
-func (e *stExec) add(cmd stCmd, explicit bool) {
+func (e *stExec) add(cmd stCmd, explicit bool) { e.addAs(cmd, explicit, nil) }
+
+// addAs: forced != nil → AddWithID under exactly that id (a re-add).
+func (e *stExec) addAs(cmd stCmd, explicit bool, forced *uint32) {
 	var vec []float32
 	var text string
 	var meta map[string]interface{}
 	vd, tl, mc := 0, 0, 0
 	n := e.nAdd*3 + cmd.N
+	scale := func(v []float32) []float32 {
+		for f := 0; f < cmd.Far && f < 3; f++ {
+			for i := range v {
+				v[i] *= 10
+			}
+		}
+		return v
+	}
 	if cmd.V {
-		vec = e.docVector(n)
+		vec = scale(e.docVector(n))
 		vd = len(vec)
 	}
 	if cmd.T {
@@ -881,7 +964,10 @@ func (e *stExec) add(cmd stCmd, explicit bool) {
 	var id uint32
 	var err error
 	fwIdle := e.isIdle(&e.h.fw)
-	if explicit {
+	if forced != nil {
+		id = *forced
+		err = e.store.AddWithID(id, vec, text, meta)
+	} else if explicit {
 		switch cmd.Sp {
 		case 1:
 			id = 0
@@ -898,15 +984,17 @@ func (e *stExec) add(cmd stCmd, explicit bool) {
 	if err != nil {
 		e.adds = append(e.adds, 0)
 		e.addOK = append(e.addOK, false)
+		e.addCmd = append(e.addCmd, cmd)
 		e.emit("op add %d %d %d %d => %s", id, vd, tl, mc, storeErr(err))
 		return
 	}
 	e.adds = append(e.adds, id)
 	e.addOK = append(e.addOK, true)
+	e.addCmd = append(e.addCmd, cmd)
 	if e.ref != nil {
 		var rvec []float32
 		if cmd.V {
-			rvec = e.docVector(n)
+			rvec = scale(e.docVector(n))
 		}
 		if rerr := e.ref.AddWithID(id, rvec, text, meta); rerr != nil {
 			e.emit("op panic reference add: %v", rerr)
@@ -1167,12 +1255,26 @@ func (e *stExec) do(cmd stCmd) {
 		e.search(cmd.Q, cmd.K)
 	case "badadd":
 		e.badAdd(cmd)
+	case "addmany":
+		for i := 0; i < cmd.Cnt && e.store != nil; i++ {
+			e.add(stCmd{Op: "add", V: cmd.V, T: cmd.T, M: cmd.M, N: i % 3}, false)
+		}
+	case "readd":
+		if cmd.Ref >= 0 && cmd.Ref < len(e.adds) && e.addOK[cmd.Ref] {
+			id := e.adds[cmd.Ref]
+			orig := e.addCmd[cmd.Ref]
+			e.addAs(stCmd{Op: "addid", V: orig.V, T: orig.T, M: orig.M, N: cmd.N, Far: orig.Far}, true, &id)
+		}
 	case "osearch":
 		if cmd.O != nil {
 			e.osearch(cmd.O)
 		}
 	case "bg":
-		e.stepWorker(cmd.W == "f")
+		if cmd.W == "fi" {
+			e.stepWorkerInner()
+		} else {
+			e.stepWorker(cmd.W == "f")
+		}
 	case "close":
 		e.closeStore()
 	case "state":
@@ -1186,13 +1288,56 @@ func (e *stExec) begin() {
 }
 
 // withStoreEnv runs f with the global handler installed and a scratch directory.
+// storeDirNames: what the base directory may be called. Entry 0 is the plain one; "@…" entries are
+// built specially (see storeDir).
+var storeDirNames = []string{
+	"db", "store[v2]", "data[1]", "a[b", "q?x*y", "back\\slash", "sp ace  two", "дб-数据-ñ", "@trailing", "@dotdot",
+	"@relative", "@symlink", "@long", "nested[0]/in ner/db", "]odd[", "{a,b}", "~tilde", "%25pct", "-dash", "a;b&c",
+}
+
+// crashDirNames: the subset usable as a single path component (crash images are built beside each other).
+var crashDirNames = []string{"db", "store[v2]", "a[b", "sp ace", "дб-数据", "q?x*y", "back\\slash"}
+
+// storeDir turns the case's Dir index into the BaseDir handed to the store (created lazily by the
+// store itself, except for the parents the special forms need).
+func storeDir(root string, idx int) string {
+	name := storeDirNames[((idx%len(storeDirNames))+len(storeDirNames))%len(storeDirNames)]
+	switch name {
+	case "@trailing":
+		return filepath.Join(root, "db") + string(filepath.Separator)
+	case "@dotdot":
+		os.MkdirAll(filepath.Join(root, "x"), 0o755)
+		return root + "/x/../db"
+	case "@relative":
+		if wd, err := os.Getwd(); err == nil {
+			if rel, err := filepath.Rel(wd, filepath.Join(root, "rel db")); err == nil {
+				return rel
+			}
+		}
+		return filepath.Join(root, "rel db")
+	case "@symlink":
+		real := filepath.Join(root, "real[1]")
+		os.MkdirAll(real, 0o755)
+		if os.Symlink(real, filepath.Join(root, "link")) == nil {
+			return filepath.Join(root, "link", "db")
+		}
+		return filepath.Join(real, "db")
+	case "@long":
+		return filepath.Join(root, strings.Repeat("long-name-", 20)+"[x]")
+	}
+	return filepath.Join(root, name)
+}
+
 func withStoreEnv(c *stCase, stream string, f func(e *stExec)) []string {
 	dir, err := os.MkdirTemp("", "verif_"+stream+"_")
 	if err != nil {
 		return []string{"begin " + stream + " 0 0 0 1 1 1", "op panic mkdtemp: " + err.Error(), "end"}
 	}
 	defer os.RemoveAll(dir)
-	e := &stExec{c: c, stream: stream, dir: filepath.Join(dir, "db"), h: newSched(), rexOn: stream == "store" || stream == "restart"}
+	e := &stExec{c: c, stream: stream, root: dir, dir: storeDir(dir, c.Dir), h: newSched(), rexOn: stream == "store" || stream == "restart"}
+	if stream == "crash" {
+		e.dir = filepath.Join(dir, crashDirNames[((c.Dir%len(crashDirNames))+len(crashDirNames))%len(crashDirNames)])
+	}
 	dispatchOnce.Do(func() { comet.VerifSetPointHandler(dispatchPoint) })
 	schedReg.Store(curGoid(), e.h)
 	defer func() {
